@@ -456,6 +456,18 @@ def F30():
         return f"update_all(n -> n + 1) on three points sharing one fields mapping gave n = {ns}"
 
 
+def F31():
+    db = TinyFlux(storage=MemoryStorage)
+    db.insert(Point(time=datetime.max.replace(tzinfo=timezone.utc), fields={"a": 1}))
+    try:
+        db.insert(Point(time=t(0), fields={"a": 2}))
+    except Exception as e:  # noqa
+        n = len(db.all())
+        return f"insert after a point at datetime.max raised {type(e).__name__}: {e}; {n} points stored, index valid={db.index.valid} with {len(db.index)} items"
+    if db.count(FieldQuery().a > 0) != 2:
+        return "count after the two inserts is not 2"
+
+
 ALL = [k for k in list(globals()) if re.fullmatch(r"F\d+[a-c]?", k)]
 
 if __name__ == "__main__":
